@@ -298,7 +298,22 @@ def rule_no_stale_cache_(ctx: Ctx, rep: Report) -> None:
     rule_no_stale_cache(ctx, rep, "C02.no_stale_cache", ("btclib.ecc.dsa", "btclib.ecc.bms", "btclib.ecc.rfc6979", "btclib.to_pub_key", "btclib.to_prv_key", "btclib.curves"), 1)
 
 
+def rule_config_not_replaced_(ctx: Ctx, rep: Report) -> None:
+    """C02.config_not_replaced: the curve / hash function / network a function takes is handed on as its own, never replaced by a module constant (see sigcommon.rule_config_not_replaced)."""
+    from rules.sigcommon import rule_config_not_replaced
+    rule_config_not_replaced(ctx, rep, "C02.config_not_replaced", ('btclib.ecc.dsa', 'btclib.ecc.bms', 'btclib.ecc.rfc6979', 'btclib.ecc.commit_nonce'), 1)
+
+
+def rule_hash_params_(ctx: Ctx, rep: Report) -> None:
+    """C02.hash_params: a `..._hash` parameter is handed a digest, never the caller's text as it came (see sigcommon.rule_hash_params)."""
+    from rules.sigcommon import rule_hash_params
+    rule_hash_params(ctx, rep, "C02.hash_params", ('btclib.ecc.dsa', 'btclib.ecc.bms', 'btclib.ecc.rfc6979', 'btclib.ecc.commit_nonce'), 1)
+
+
 RULES = [
+    ("C02.config_not_replaced", rule_config_not_replaced_),
+    ("C02.hash_params", rule_hash_params_),
+
     ("C02.no_stale_cache", rule_no_stale_cache_),
     ("C02.rfc6979_steps", rule_rfc6979_steps),
     ("C02.one_comparator", rule_one_comparator),
